@@ -526,3 +526,43 @@ func H01_Edited() {
 	verif.Assert(bytes.Equal(serialised(got), enc), "serialising the result again yields the same bytes")
 	verif.Reach("end")
 }
+
+// H01_PayloadWidth: payload sizes on both sides of every CBOR length-width boundary (23/24, 255/256, 65535/65536) and
+// around 1 MiB (the chunk size of the library's byte string reader): a
+// bundle whose payload has exactly that many bytes (two of them symbolic, at the first and the last position) with a
+// hop count block, CRC-32 on the blocks up to 256 bytes (the CRC of a 64 KiB block as an uninterpreted function of 64 Ki
+// arguments is not a useful term, so the two large sizes go without a payload CRC): WriteBundle -> ParseBundle -> equal
+// payload, blocks and primary block -> WriteBundle -> identical bytes, nothing left in the reader.
+func H01_PayloadWidth() {
+	sizes := []int{23, 24, 255, 256, 65535, 65536, 1 << 20, 1<<20 + 1}
+	n := sizes[verif.Choose("size", verif.Param("nsizes", 8))]
+	pl := make([]byte, n)
+	for i := range pl {
+		pl[i] = byte(i * 7)
+	}
+	edge := verif.Bytes("edge", 2)
+	pl[0], pl[n-1] = edge[0], edge[1]
+	crc := CRC32
+	if n > 256 {
+		crc = CRCNo
+	}
+	pb := PrimaryBlock{Version: dtnVersion, CRCType: CRC16, Destination: symEID("", 4, false), SourceNode: symEID("", 1, false), ReportTo: DtnNone(),
+		CreationTimestamp: NewCreationTimestamp(DtnTime(tsAlive), 1), Lifetime: 1000}
+	b := MustNewBundle(pb, []CanonicalBlock{
+		{BlockNumber: 2, CRCType: CRC16, Value: &HopCountBlock{Limit: 9, Count: verif.U8("hc")}},
+		{BlockNumber: 1, CRCType: crc, Value: NewPayloadBlock(pl)},
+	})
+	verif.Assume(b.CheckValid() == nil)
+	var w bytes.Buffer
+	verif.Assert(b.WriteBundle(&w) == nil, "a valid bundle serialises")
+	enc := append([]byte{}, w.Bytes()...)
+	b2, err := ParseBundle(&w)
+	verif.Assert(err == nil, "own encoding of a valid bundle is accepted")
+	verif.Assert(w.Len() == 0, "the parser consumes the whole encoding")
+	p2, perr := b2.PayloadBlock()
+	verif.Assert(perr == nil && bytes.Equal(p2.Value.(*PayloadBlock).Data(), pl), "the payload survives the round trip at this size")
+	verif.Assert(primaryEqual(b.PrimaryBlock, b2.PrimaryBlock) && len(b2.CanonicalBlocks) == 2, "primary block and block list survive")
+	var w2 bytes.Buffer
+	verif.Assert(b2.WriteBundle(&w2) == nil && bytes.Equal(enc, w2.Bytes()), "re-serialisation is byte-identical")
+	verif.Reach("end")
+}
